@@ -41,6 +41,18 @@ def check(ctx, res, entries):
                 res.fail(Finding("C01.R3", fi.qname, op.node, fi.loc(op.node),
                                  "%s looks up `__class__` on `%s`, a value of the traced program: when that is a property (lazy proxies forward it and "
                                  "evaluate themselves) the agent runs program code and changes program state; use type()" % (kind, norm(op.subject)[:60])))
+            elif kind in ("truth", "builtin:bool", "builtin:len", "contains"):
+                # `if value:` / len(value) / `x in value` run the program's __bool__ / __len__ / __contains__: a lazily loading
+                # collection is loaded by the agent, earlier than (and differently from) the program's own first use
+                caps = pins.caps(op.subject, op.node, fi)
+                want_cap = "contains" if kind == "contains" else "len"
+                if want_cap in caps:
+                    res.ok("C01.R3", {"op": kind, "on": norm(op.subject)[:50], "at": fi.loc(op.node), "why": "pinned to a builtin container"})
+                else:
+                    res.fail(Finding("C01.R3", fi.qname, op.node, fi.loc(op.node),
+                                     "%s on `%s` runs the __bool__ / __len__ / __contains__ of a value of the traced program that is not pinned to a builtin "
+                                     "container: a collection that loads itself on first use is loaded by the agent and the program sees different data; "
+                                     "test `is not None` / use type()" % (kind, norm(op.subject)[:60])))
             elif kind in ADVANCING:
                 res.fail(Finding("C01.R3", fi.qname, op.node, fi.loc(op.node),
                                  "%s advances `%s`, an iterator/generator of the traced program" % (kind, norm(op.subject)[:60])))
